@@ -197,6 +197,6 @@ def main(argv):
             oracles = list(orc)
             if im and im[0] in ("accept", "reject") and (im[0] == "accept") != want:
                 oracles.append("@dimOrder(%s) is %sed but is %sa permutation" % (", ".join(h[0].split()[1:]), im[0], "" if want else "not "))
-            if im != mo or oracles:
+            if (im != mo or oracles) and len(ck.violations) < 12:
                 ck.report_failure("dimOrder", h, im, mo, oracles)
     ck.finish(META["level_text"])
